@@ -65,6 +65,8 @@ class Adapter(EnvAdapter):
                    probe_cap=26),
                 _c("r1c3h2a2_s3q3_t40", 1, 3, 2, 2, 3, 3, 40, episodes=3, max_steps=44, policies=polm, probe_every=3),   # 7 x 7 field
                 _c("r1c3h2a2_s0q2_t7", 1, 3, 2, 2, 0, 2, 7, episodes=3, max_steps=10, policies=polm),             # own cell only
+                # generator-heavy: many resets with many agents on the smallest floor (start cells must be distinct)
+                _c("r1c3h1a6_s1q2_gen", 1, 3, 1, 6, 1, 2, 5, episodes=60, max_steps=0, policies=["random"], props=["C10"]),
             ]
         out = []
         for t in (1, 2, 3, 7):
@@ -92,6 +94,9 @@ class Adapter(EnvAdapter):
             _c("r1c3h2a2_s3q3_t40", 1, 3, 2, 2, 3, 3, 40, episodes=6, max_steps=44, policies=polm, probe_every=2),
             _c("r3c3h2a3_s3q6_t60", 3, 3, 2, 3, 3, 6, 60, episodes=5, max_steps=64, policies=polm, probe_every=3, probe_cap=40),
             _c("r2c3h3a5_s1q6_t40", 2, 3, 3, 5, 1, 6, 40, episodes=5, max_steps=44, policies=polm, probe_every=3, probe_cap=40),
+            _c("r1c3h1a6_s1q2_gen", 1, 3, 1, 6, 1, 2, 5, episodes=400, max_steps=0, policies=["random"], props=["C10"]),
+            _c("r1c3h1a8_s1q2_gen", 1, 3, 1, 8, 1, 2, 5, episodes=300, max_steps=0, policies=["random"], props=["C10"]),
+            _c("default_gen", 2, 3, 8, 4, 1, 8, 500, gen="default", episodes=300, max_steps=0, policies=["random"], props=["C10"]),
         ]
         return out
 
